@@ -202,3 +202,92 @@ def set_env(elem_rx):
         (rx(r"HashSet::<" + elem_rx + r"(, \w+)?>::contains(::<.*>)?$"), contains),
         (rx(r"<HashSet<" + elem_rx + r"(, \w+)?> as Extend<.*>>::extend"), extend),
     ]
+
+
+# ---------------------------------------------------------------- VecDeque / iterator adaptors over concrete-length lists
+def _lst(ex, v):
+    from .exec import ListV
+    v = deref(ex, v)
+    return v if isinstance(v, ListV) else None
+
+
+def _vd_len(ex, c, a, d):
+    from .exec import ENV_PASS
+    l = _lst(ex, a[0])
+    return IntV(len(l.items), "usize") if l is not None else ENV_PASS
+
+
+def _vd_is_empty(ex, c, a, d):
+    from .exec import ENV_PASS
+    l = _lst(ex, a[0])
+    return BoolV(len(l.items) == 0) if l is not None else ENV_PASS
+
+
+def _vd_iter(ex, c, a, d):
+    from .exec import ENV_PASS
+    l = _lst(ex, a[0])
+    return AggV((l, IntV(0, "usize")), "ListIterRef") if l is not None else ENV_PASS
+
+
+def _vd_index(ex, c, a, d):
+    from .exec import ENV_PASS, Panic
+    l = _lst(ex, a[0])
+    i = deref(ex, a[1])
+    if l is None or not isinstance(i, IntV) or not isinstance(i.t, int):
+        return ENV_PASS
+    if i.t >= len(l.items):
+        raise Panic("index out of bounds")
+    return ex.ctx.ref_to(l.items[i.t])
+
+
+def _rest(ex, it):
+    """remaining items of a list iterator value, as the values `next` would yield"""
+    lst, pos = it.fields
+    items = lst.items[pos.t:]
+    if it.ty == "ListIterRef":
+        return [ex.ctx.ref_to(x) for x in items]
+    return list(items)
+
+
+def _is_it(v):
+    return isinstance(v, AggV) and isinstance(v.ty, str) and v.ty.startswith("ListIter")
+
+
+def _owned(items):
+    from .exec import ListV
+    return AggV((ListV(tuple(items), "Vec<?>"), IntV(0, "usize")), "ListIter")
+
+
+def _it_take(ex, c, a, d):
+    from .exec import ENV_PASS
+    it, n = deref(ex, a[0]), deref(ex, a[1])
+    if not _is_it(it) or not isinstance(n, IntV) or not isinstance(n.t, int):
+        return ENV_PASS
+    return _owned(_rest(ex, it)[:n.t])
+
+
+def _it_skip(ex, c, a, d):
+    from .exec import ENV_PASS
+    it, n = deref(ex, a[0]), deref(ex, a[1])
+    if not _is_it(it) or not isinstance(n, IntV) or not isinstance(n.t, int):
+        return ENV_PASS
+    return _owned(_rest(ex, it)[n.t:])
+
+
+def _it_zip(ex, c, a, d):
+    from .exec import ENV_PASS
+    x, y = deref(ex, a[0]), deref(ex, a[1])
+    if not _is_it(x) or not _is_it(y):
+        return ENV_PASS
+    return _owned([AggV((p, q), "(?, ?)") for p, q in zip(_rest(ex, x), _rest(ex, y))])
+
+
+LIST_ADAPTORS = [
+    (rx(r"VecDeque::<.*>::len$"), _vd_len),
+    (rx(r"VecDeque::<.*>::is_empty$"), _vd_is_empty),
+    (rx(r"VecDeque::<.*>::iter$"), _vd_iter),
+    (rx(r"<VecDeque<.*> as (?:std::ops::|core::ops::)?Index<usize>>::index$"), _vd_index),
+    (rx(r" as (?:std::iter::|core::iter::)?Iterator>::take$"), _it_take),
+    (rx(r" as (?:std::iter::|core::iter::)?Iterator>::skip$"), _it_skip),
+    (rx(r" as (?:std::iter::|core::iter::)?Iterator>::zip::<"), _it_zip),
+] + LIST_ITER
